@@ -27,15 +27,21 @@ import json
 import numpy as np
 import z3
 
-from pyvc.core import Path, Sym, SymSeq, Unsupported, explore, z3_of
+from pyvc.core import Path, StrSort, Sym, SymSeq, Unsupported, explore, z3_of
+from pyvc.ops import as_str_term
 from pyvc.interp import Interp
 from pyvc.models import REGISTRY, BoundSymMethod, SymMap, eval_at_index
 
 VAL = z3.DeclareSort("JsonVal")
 PRE = z3.Function("preprocess_of", VAL, VAL)  # contract of a recursive preprocess call: some value P(x) with Hpost(P(x)) = x
 ELEM = z3.Function("child", z3.IntSort(), VAL)
-KEY = z3.Function("key", z3.IntSort(), z3.StringSort())
-PJOIN = z3.Function("posixpath_join", z3.StringSort(), z3.StringSort(), z3.StringSort())
+KEY = z3.Function("key", z3.IntSort(), StrSort)
+PJOIN = z3.Function("posixpath_join", StrSort, StrSort, StrSort)
+BRANGE = z3.Function("byte_range", z3.IntSort(), VAL)
+
+
+def sstr(name):
+    return Sym(z3.Const(name, StrSort), str)
 
 
 class Opaque:
@@ -287,6 +293,74 @@ def hpost(it, post, v):
     return v
 
 
+def composition(ses, prop):
+    """caching.encode / caching.decode as compositions of their parts (each part under its own contract), and the text
+    format options of the document"""
+    from ceos_alos2.sar_image import caching
+    from ceos_alos2.sar_image.caching import decoders as D
+
+    fq = {caching.encode: ses.under_contract(caching.encode)}
+    ses.under_contract(caching.decode)
+    RPC = Sym(z3.Int("rpc_read"), int)
+    # ------------------------------------------------------------------------------------------------- composition
+    def run_top(path):
+        order = []
+
+        def c_enc(it, a, k):
+            order.append("encode_hierarchy")
+            return Mark("E", a[0])
+
+        def c_pre(it, a, k):
+            order.append("preprocess")
+            return Mark("P", a[0])
+
+        def c_dec(it, a, k):
+            order.append("decode_hierarchy")
+            return Mark("D", a[0], k.get("records_per_chunk", a[1] if len(a) > 1 else None))
+        it = Interp(path, contracts={QN + "encoders.encode_hierarchy": c_enc, QN + "encoders.preprocess": c_pre,
+                                     QN + "decoders.decode_hierarchy": c_dec})
+        old = REGISTRY.calls.get(json.dumps), REGISTRY.calls.get(json.loads)
+        hooks = []
+        dumps_kw = []
+
+        def dumps(it_, a, k):
+            dumps_kw.append(dict(k))
+            # any keyword that keeps the text a JSON document of the same value; ensure_ascii is recorded for the caller
+            return Mark("json.dumps", a[0]) if len(a) == 1 and set(k) <= {"ensure_ascii", "separators", "sort_keys", "indent"} \
+                and not k.get("sort_keys") else NotImplemented
+        REGISTRY.calls[json.dumps] = dumps
+
+        def loads(it_, a, k):
+            hooks.append(k.get("object_hook"))
+            return Mark("json.loads", a[0]) if len(a) == 1 and set(k) == {"object_hook"} else NotImplemented
+        REGISTRY.calls[json.loads] = loads
+        try:
+            g = Mark("g")
+            text = it.call(it.shim(caching.encode), [g], {})
+            back = it.call(it.shim(caching.decode), [text, RPC], {})
+        finally:
+            for f, o in zip((json.dumps, json.loads), old):
+                if o is None:
+                    REGISTRY.calls.pop(f, None)
+                else:
+                    REGISTRY.calls[f] = o
+        return text, back, hooks, order, dumps_kw
+    for c, path, (text, back, hooks, order, dumps_kw) in each_path(ses, prop, "composition", fq[caching.encode], run_top):
+        # json.dumps escapes every non-ASCII character unless told otherwise: the document is ASCII, so that every byte
+        # prefix of it (a crash during the write) is still decodable text - what C09's torn-cache contract rests on
+        if prop == "C09":
+            c.ok("document-is-ASCII-text(ensure_ascii-left-on)", len(dumps_kw) == 1 and dumps_kw[0].get("ensure_ascii", True) is True,
+                 kwargs=dumps_kw)
+        c.ok("encode=json.dumps(preprocess(encode_hierarchy(g)))", isinstance(text, Mark) and
+             text.key() == ("json.dumps", ("P", ("E", ("g",)))), text=text)
+        hook = hooks[0] if len(hooks) == 1 else None
+        c.ok("decode-loads-with-object_hook=postprocess", getattr(hook, "__qualname__", None) == QN + "decoders.postprocess" or hook is D.postprocess,
+             hook=hook)
+        c.ok("decode=decode_hierarchy(json.loads(text), read-time-rpc)", isinstance(back, Mark) and
+             back.key() == ("D", ("json.loads", ("json.dumps", ("P", ("E", ("g",))))), ("sym", "rpc_read")), back=back)
+
+
+
 def run(ses, prop="C08"):
     from ceos_alos2 import hierarchy as H
     from ceos_alos2.array import Array
@@ -316,7 +390,7 @@ def run(ses, prop="C08"):
     for tname, pyt in (("str", str), ("int", int), ("float", float), ("bool", bool)):
         def run_scalar(path, pyt=pyt):
             it = Interp(path, contracts={QN + "encoders.preprocess": pre_contract})
-            srt = {str: z3.String, int: z3.Int, float: lambda nm: z3.FP(nm, z3.Float64()), bool: z3.Bool}[pyt]
+            srt = {str: lambda nm: z3.Const(nm, StrSort), int: z3.Int, float: lambda nm: z3.FP(nm, z3.Float64()), bool: z3.Bool}[pyt]
             x = Sym(srt("x"), pyt)
             return x, it.call_body(it.shim(E.preprocess), [x], {})
         for c, path, (x, r) in each_path(ses, prop, f"preprocess/scalar-{tname}", fq[E.preprocess], run_scalar):
@@ -492,9 +566,10 @@ def run(ses, prop="C08"):
         def run_backend(path, tc=tc, dt=dt):
             it = Interp(path)
             arr = object.__new__(Array)
-            fields = {"fs": FsStub(Sym(z3.String("root"), str), Mark("filesystem-of", "original")), "url": Sym(z3.String("url"), str),
-                      "shape": opaque("shape", OpaqueTuple), "dtype": np.dtype(dt), "byte_ranges": opaque("byte_ranges", OpaqueList),
-                      "type_code": Sym(z3.String("type_code"), str), "records_per_chunk": Sym(z3.Int("rpc_written"), int)}
+            fields = {"fs": FsStub(sstr("root"), Mark("filesystem-of", "original")), "url": sstr("url"),
+                      "shape": (Sym(z3.Int("rows"), int), Sym(z3.Int("columns"), int)), "dtype": np.dtype(dt),
+                      "byte_ranges": SymSeq(Sym(z3.Int("n_ranges"), int), lambda i: Sym(BRANGE(z3_of(i)), OpaqueTuple), list),
+                      "type_code": sstr("type_code"), "records_per_chunk": Sym(z3.Int("rpc_written"), int)}
             for k_, v_ in fields.items():
                 object.__setattr__(arr, k_, v_)
             doc = it.call(it.shim(E.encode_array), [arr], {})
@@ -513,8 +588,9 @@ def run(ses, prop="C08"):
                         reg.pop(key_, None)
                     else:
                         reg[key_] = o
-            return fields, doc, post_ok, back, built
-        for c, path, (fields, doc, post_ok, back, built) in each_path(ses, prop, f"backend-array/{tc}", fq[E.encode_array], run_backend):
+            return it, fields, doc, post_ok, back, built
+        for c, path, (it, fields, doc, post_ok, back, built) in each_path(ses, prop, f"backend-array/{tc}", fq[E.encode_array], run_backend,
+                                                                            [z3.Int("n_ranges") >= 0, z3.Int("rows") >= 0, z3.Int("columns") >= 0]):
             want = {"__type__": "backend_array", "root": fields["fs"].path, "url": fields["url"], "shape": fields["shape"],
                     "dtype": str(fields["dtype"]), "byte_ranges": fields["byte_ranges"], "type_code": fields["type_code"]}
             good = isinstance(doc, dict) and list(doc) == list(want) and all(doc[k_] is want[k_] or (isinstance(want[k_], str) and doc[k_] == want[k_])
@@ -527,8 +603,22 @@ def run(ses, prop="C08"):
             if one and good:
                 kw = built[0][1]
                 c.ok("Array-fields-restored", set(kw) == {"fs", "url", "byte_ranges", "shape", "dtype", "type_code", "records_per_chunk"}
-                     and all(kw[k_] is fields[k_] for k_ in ("url", "byte_ranges", "shape", "type_code")) and kw["dtype"] == str(fields["dtype"]),
+                     and all(kw[k_] is fields[k_] for k_ in ("url", "shape", "type_code")) and kw["dtype"] == str(fields["dtype"]),
                      kwargs=kw)
+                br = kw.get("byte_ranges")
+                if br is not fields["byte_ranges"]:
+                    # rebuilt sequence: same length (whatever the number of ranges and the shape are) and same elements
+                    nr = z3.Int("n_ranges")
+                    hy = [nr >= 0, z3.Int("rows") >= 0, z3.Int("columns") >= 0]
+                    c.ok("byte_ranges-is-a-list", isinstance(br, SymSeq) and br.pycls is list, value=br)
+                    if isinstance(br, SymSeq):
+                        c.prove("byte_ranges-length", hy, br.len_term() == nr)
+                        e = eval_at_index(it, br.len_term(), Sym(j, int), lambda i: br.at(i))
+                        c.ok("byte_ranges-element-is-a-range", isinstance(e, Sym) and e.pyt is OpaqueTuple, element=e)
+                        if isinstance(e, Sym) and e.pyt is OpaqueTuple:
+                            c.prove("byte_ranges-element-j", hy + [j >= 0, j < br.len_term()], e.term == BRANGE(j))
+                else:
+                    c.ok("byte_ranges-unchanged", True)
                 c.ok("read-time-records_per_chunk-handed-to-Array", kw.get("records_per_chunk") is RPC, rpc=kw.get("records_per_chunk"))
                 fs = kw.get("fs")
                 c.ok("filesystem-rooted-at-the-stored-root", isinstance(fs, FsStub) and fs.path is fields["fs"].path and isinstance(fs.fs, Mark)
@@ -593,14 +683,14 @@ def run(ses, prop="C08"):
                  and r.args[0] is doc and r.args[1] is RPC and len(r.args) == 2, got=r)
 
     # groups: k children of every kind combination, each opaque (the induction hypothesis is the contract of the calls on them)
-    PATH, URL, GATTRS = Sym(z3.String("path"), str), Sym(z3.String("url"), str), opaque("group_attrs", OpaqueDict)
+    PATH, URL, GATTRS = sstr("path"), sstr("url"), opaque("group_attrs", OpaqueDict)
 
     def child(kind, name):
         if kind == "V":
             return H.Variable(dims=opaque(f"dims_{name}", OpaqueList), data=Mark(f"array-{name}"), attrs=opaque(f"attrs_{name}", OpaqueDict))
         g = object.__new__(H.Group)
-        g.path = Sym(PJOIN(PATH.term, z3.StringVal(name)), str)  # Group invariant: established by Group.__post_init__
-        g.url = Sym(z3.String(f"url_{name}"), str)
+        g.path = Sym(PJOIN(PATH.term, as_str_term(name)), str)  # Group invariant: established by Group.__post_init__
+        g.url = sstr(f"url_{name}")
         g.attrs = opaque(f"attrs_{name}", OpaqueDict)
         g.data = {"grandchild": Mark(f"grandchild-of-{name}")}
         return g
@@ -637,8 +727,7 @@ def run(ses, prop="C08"):
             it = Interp(path, contracts={QN + "encoders.encode_group": enc, QN + "encoders.encode_variable": enc,
                                          QN + "decoders.decode_hierarchy": dec, "ceos_alos2.hierarchy.Group._adjust_item": adjust})
             oldj = REGISTRY.calls.get(posixpath.join)
-            REGISTRY.calls[posixpath.join] = lambda it_, a, k: Sym(PJOIN(z3_of(a[0]) if isinstance(a[0], Sym) else z3.StringVal(a[0]),
-                                                                          z3_of(a[1]) if isinstance(a[1], Sym) else z3.StringVal(a[1])), str) \
+            REGISTRY.calls[posixpath.join] = lambda it_, a, k: Sym(PJOIN(as_str_term(a[0]), as_str_term(a[1])), str) \
                 if len(a) == 2 and not k else NotImplemented
             try:
                 doc = it.call_body(it.shim(E.encode_group), [g], {})
@@ -680,50 +769,7 @@ def run(ses, prop="C08"):
                     if same:
                         c.prove(f"child-{k_}-group-path-unchanged", [], new.path.term == orig.path.term)
 
-    # ------------------------------------------------------------------------------------------------- composition
-    def run_top(path):
-        order = []
-
-        def c_enc(it, a, k):
-            order.append("encode_hierarchy")
-            return Mark("E", a[0])
-
-        def c_pre(it, a, k):
-            order.append("preprocess")
-            return Mark("P", a[0])
-
-        def c_dec(it, a, k):
-            order.append("decode_hierarchy")
-            return Mark("D", a[0], k.get("records_per_chunk", a[1] if len(a) > 1 else None))
-        it = Interp(path, contracts={QN + "encoders.encode_hierarchy": c_enc, QN + "encoders.preprocess": c_pre,
-                                     QN + "decoders.decode_hierarchy": c_dec})
-        old = REGISTRY.calls.get(json.dumps), REGISTRY.calls.get(json.loads)
-        hooks = []
-        REGISTRY.calls[json.dumps] = lambda it_, a, k: Mark("json.dumps", a[0]) if len(a) == 1 and not k else NotImplemented
-
-        def loads(it_, a, k):
-            hooks.append(k.get("object_hook"))
-            return Mark("json.loads", a[0]) if len(a) == 1 and set(k) == {"object_hook"} else NotImplemented
-        REGISTRY.calls[json.loads] = loads
-        try:
-            g = Mark("g")
-            text = it.call(it.shim(caching.encode), [g], {})
-            back = it.call(it.shim(caching.decode), [text, RPC], {})
-        finally:
-            for f, o in zip((json.dumps, json.loads), old):
-                if o is None:
-                    REGISTRY.calls.pop(f, None)
-                else:
-                    REGISTRY.calls[f] = o
-        return text, back, hooks, order
-    for c, path, (text, back, hooks, order) in each_path(ses, prop, "composition", fq[caching.encode], run_top):
-        c.ok("encode=json.dumps(preprocess(encode_hierarchy(g)))", isinstance(text, Mark) and
-             text.key() == ("json.dumps", ("P", ("E", ("g",)))), text=text)
-        hook = hooks[0] if len(hooks) == 1 else None
-        c.ok("decode-loads-with-object_hook=postprocess", getattr(hook, "__qualname__", None) == QN + "decoders.postprocess" or hook is D.postprocess,
-             hook=hook)
-        c.ok("decode=decode_hierarchy(json.loads(text), read-time-rpc)", isinstance(back, Mark) and
-             back.key() == ("D", ("json.loads", ("json.dumps", ("P", ("E", ("g",))))), ("sym", "rpc_read")), back=back)
+    composition(ses, prop)
 
     ses.trust("json: loads(dumps(x), object_hook=h) = h applied bottom-up to x for x built from dict[str]/list/str/int/float/bool/None "
               "(ints exact, float repr round trip, NaN/Infinity tokens, non-ASCII escaped and restored)",
